@@ -341,6 +341,25 @@ func checkFastCodec(c FCCase, cv *cov) (v *evid.Violation) {
 			v = evid.Failf("%s.FastRead of a reference-built image (order %v, %d unknown fields): %s; image %s", name, perm, nUnknown, d, hx(img))
 			return
 		}
+		// a decoded map belongs to the caller: modifying it must not leak into later decodes
+		if c.Kind != 2 && m.extra != nil {
+			for round := 0; round < 2; round++ {
+				y2 := newFC(c.Kind, nil)
+				if n2, err2 := y2.FastRead(full); err2 != nil || n2 != len(img) {
+					v = evid.Failf("%s.FastRead (repeat %d) returned (%d,%v)", name, round, n2, err2)
+					return
+				}
+				got2 := readBack(c.Kind, y2)
+				if d := eqModel(c.Kind, &got2, &m); d != "" {
+					v = evid.Failf("%s.FastRead: after the caller modified the Extra map of an earlier result, a later decode of the same image is wrong: %s", name, d)
+					return
+				}
+				got2.extra["verif-scribble"] = "x"
+				for k := range m.extra {
+					got2.extra[k] = "changed"
+				}
+			}
+		}
 		// the same image read into a receiver that already holds other content (object reuse): fields
 		// present in the image replace the old content completely, in particular the map
 		old := fcModel{s: [3]string{"old-1", "old-2", "old-3"}, i32: 424242}
